@@ -40,6 +40,8 @@ def configs(tier):
             dict(name="rx+register-writes+transmit:full-alphabet", checks=["rx"], phy=full, ctrl=TERM, packets=[[0xC3, 0x5A]]),
             dict(name="rx+two-registers+transmit", checks=["rx"], phy=small, ctrl=TERM + [dict(dp_pulldown=0)], packets=[[0xC3, 0x5A], [0x2D]]),
         ]
+    if tier != "quick":
+        for c in out: c["max_states"] = 500_000      # deterministic cap; only reached on trees where register writes go wrong
     return out
 
 
